@@ -32,6 +32,11 @@ pub struct World {
     /// git's default is 3, `-U0` gives none).
     #[serde(default)]
     pub diff_context: usize,
+    /// Sections a real `git diff` routinely carries besides text changes, about files that are not
+    /// part of the world: "binary" (`Binary files a/x.png and b/x.png differ`) and "mode" (a
+    /// mode change without hunks). They name nothing blockwatch can or should examine.
+    #[serde(default)]
+    pub diff_noise: Vec<String>,
 }
 
 #[derive(Serialize, Deserialize, Clone, Debug, PartialEq, Default)]
@@ -62,6 +67,10 @@ pub struct FileSpec {
     /// extension such as "md" or "py". None: the file's own extension decides.
     #[serde(default)]
     pub lang: Option<String>,
+    /// The last line of the file is not terminated by a newline (diffs then carry git's
+    /// `\\ No newline at end of file` marker after that line).
+    #[serde(default)]
+    pub no_final_newline: bool,
 }
 
 impl FileSpec {
@@ -167,6 +176,9 @@ pub struct ArgsSpec {
     /// Write long flags as one token (`--disable=keep-sorted`).
     #[serde(default)]
     pub joined_flags: bool,
+    /// Write `--` between the flags and the positional globs (flags-first order only).
+    #[serde(default)]
+    pub dashdash: bool,
 }
 
 impl ArgsSpec {
@@ -180,6 +192,10 @@ impl ArgsSpec {
                 (true, _) => {
                     flags.push(long.to_string());
                     flags.push(value);
+                }
+                // a short flag takes its value in the next token or attached (`-dkeep-sorted`)
+                (false, Some(s)) if joined && !value.is_empty() && !value.starts_with('=') => {
+                    flags.push(format!("{s}{value}"));
                 }
                 (false, Some(s)) => {
                     flags.push(s.to_string());
@@ -215,6 +231,9 @@ impl ArgsSpec {
             out.extend(flags);
         } else {
             out.extend(flags);
+            if self.dashdash && !self.globs.is_empty() {
+                out.push("--".to_string());
+            }
             out.extend(self.globs.clone());
         }
         out
@@ -521,6 +540,8 @@ impl BlockLayout {
 #[derive(Clone, Debug)]
 pub struct RenderedFile {
     pub path: String,
+    /// The text does not end with a newline.
+    pub no_final_newline: bool,
     pub text: String,
     pub lines: Vec<String>,
     pub blocks: Vec<BlockLayout>,
@@ -624,10 +645,19 @@ pub fn render_file(f: &FileSpec, poisoned: bool) -> RenderedFile {
         lines.push("zz".to_string());
         lines.push("aa".to_string());
     }
+    if f.no_final_newline && !poisoned {
+        // the last line must be a real one: an empty last line without terminator does not exist
+        while lines.last().is_some_and(|l| l.is_empty()) {
+            lines.pop();
+        }
+    }
     let mut text = lines.join("\n");
-    text.push('\n');
+    if !f.no_final_newline || poisoned {
+        text.push('\n');
+    }
     RenderedFile {
         path: f.path.clone(),
+        no_final_newline: f.no_final_newline && !poisoned,
         text,
         lines,
         blocks,
@@ -666,6 +696,9 @@ pub fn render_diff_section(f: &FileSpec, rendered: &RenderedFile, ctx: usize) ->
                 s.push_str(l);
                 s.push('\n');
             }
+            if rendered.no_final_newline {
+                s.push_str(NO_NEWLINE_MARKER);
+            }
             Some(s)
         }
         FileDiff::Insert { line, renamed_from, edit } => {
@@ -700,6 +733,9 @@ pub fn render_diff_section(f: &FileSpec, rendered: &RenderedFile, ctx: usize) ->
                     for c in &rendered.lines[l..l + after] {
                         hunk.push_str(&format!(" {c}\n"));
                     }
+                    if rendered.no_final_newline && l + after == n {
+                        hunk.push_str(NO_NEWLINE_MARKER);
+                    }
                 }
                 LineEdit::Removed { old } => {
                     // the removed line was line `l` of the old file; new lines l.. follow it
@@ -720,6 +756,9 @@ pub fn render_diff_section(f: &FileSpec, rendered: &RenderedFile, ctx: usize) ->
                     hunk.push_str(&format!("-{old}\n"));
                     for c in &rendered.lines[l - 1..l - 1 + after] {
                         hunk.push_str(&format!(" {c}\n"));
+                    }
+                    if rendered.no_final_newline && l - 1 + after == n {
+                        hunk.push_str(NO_NEWLINE_MARKER);
                     }
                 }
             }
@@ -752,14 +791,47 @@ pub fn render_diff_section(f: &FileSpec, rendered: &RenderedFile, ctx: usize) ->
                 s.push_str(l);
                 s.push('\n');
             }
+            if rendered.no_final_newline {
+                s.push_str(NO_NEWLINE_MARKER);
+            }
             Some(s)
         }
+    }
+}
+
+const NO_NEWLINE_MARKER: &str = "\\ No newline at end of file\n";
+
+/// The extra sections of `World::diff_noise`.
+pub fn noise_section(kind: &str, n: usize) -> String {
+    match kind {
+        "binary" => format!(
+            "diff --git a/assets/logo{n}.png b/assets/logo{n}.png\nindex 2b379ce..d51e4ba 100644\nBinary files a/assets/logo{n}.png and b/assets/logo{n}.png differ\n"
+        ),
+        "new-binary" => format!(
+            "diff --git a/assets/new{n}.png b/assets/new{n}.png\nnew file mode 100644\nindex 0000000..d51e4ba\nBinary files /dev/null and b/assets/new{n}.png differ\n"
+        ),
+        _ => format!("diff --git a/tools/run{n}.bin b/tools/run{n}.bin\nold mode 100644\nnew mode 100755\n"),
     }
 }
 
 impl World {
     pub fn is_terminal(&self) -> bool {
         matches!(self.stdin, StdinSpec::Terminal)
+    }
+
+    /// `core` (the sections about the world's files) with the noise sections put around it.
+    pub fn with_noise(&self, core: String, seed: u64) -> String {
+        let mut head = String::new();
+        let mut tail = String::new();
+        for (i, k) in self.diff_noise.iter().enumerate() {
+            let sec = noise_section(k, i);
+            if crate::rng::mix_n(seed | 1, i as u64) % 2 == 0 {
+                head.push_str(&sec);
+            } else {
+                tail.push_str(&sec);
+            }
+        }
+        format!("{head}{core}{tail}")
     }
 
     /// The bytes piped to stdin (None in terminal mode); sections in `order` (file indices).
